@@ -1,9 +1,89 @@
 import VrpProofs.Props.C02
+import Mathlib.Algebra.Order.BigOperators.Ring.Finset
+import Mathlib.Tactic.Linarith
+import Mathlib.Tactic.Positivity
 
+/-!
+# C03 — Feasibility QUBO is zero exactly on the feasible set, positive elsewhere
+-/
 namespace Vrp.C03
-open Vrp
+open Vrp Finset
 
-/-- placeholder until the property theorems are merged -/
 theorem default_rho_feas (suff : ℚ) : defaultRho suff true = 1 := by simp [defaultRho]
 
+theorem Rmat_nonneg (d : MPData) (i j : ℕ) : 0 ≤ d.Rmat i j := by
+  unfold MPData.Rmat; exact Nat.cast_nonneg _
+
+theorem bin_nonneg {n : ℕ} {x : Vec} (hx : IsBin n x) {i : ℕ} (hi : i < n) : 0 ≤ x i := by
+  rcases hx i hi with h | h <;> simp [h]
+
+theorem quadR_nonneg (d : MPData) (x : Vec) (hx : IsBin d.n x) : 0 ≤ quad d.n d.Rmat x := by
+  rw [quad_eq]; unfold G.quad
+  refine Finset.sum_nonneg fun i hi => Finset.sum_nonneg fun j hj => ?_
+  have h1 := bin_nonneg hx (Finset.mem_range.mp hi)
+  have h2 := bin_nonneg hx (Finset.mem_range.mp hj)
+  have h3 := Rmat_nonneg d i j
+  positivity
+
+theorem lin_nonneg (d : MPData) (x : Vec) :
+    0 ≤ sumTo d.m (fun r => (d.rowVal x r - d.bvec r) * (d.rowVal x r - d.bvec r)) := by
+  rw [sumTo_eq]
+  exact Finset.sum_nonneg fun r _ => mul_self_nonneg _
+
+/-- the penalty is a sum of squares plus a quadratic form with entrywise non-negative `R`
+    (`Rmat` counts stored products, so it is non-negative by construction for every formulation) -/
+theorem penalty_nonneg (d : MPData) (x : Vec) (hx : IsBin d.n x) : 0 ≤ d.penalty x := by
+  unfold MPData.penalty
+  exact add_nonneg (lin_nonneg d x) (quadR_nonneg d x hx)
+
+/-- … and vanishes exactly on the vectors satisfying all linear and quadratic constraints -/
+theorem penalty_zero_iff (d : MPData) (x : Vec) (hx : IsBin d.n x) :
+    d.penalty x = 0 ↔ d.feasibleB x = true := by
+  have h1 := lin_nonneg d x
+  have h2 := quadR_nonneg d x hx
+  have hlin : sumTo d.m (fun r => (d.rowVal x r - d.bvec r) * (d.rowVal x r - d.bvec r)) = 0
+      ↔ ∀ r < d.m, d.rowVal x r = d.bvec r := by
+    rw [sumTo_eq, Finset.sum_eq_zero_iff_of_nonneg (fun r _ => mul_self_nonneg _)]
+    simp only [Finset.mem_range, mul_self_eq_zero, sub_eq_zero]
+  unfold MPData.penalty MPData.feasibleB
+  simp only [Bool.and_eq_true, List.all_eq_true, List.mem_range, decide_eq_true_eq]
+  rw [← hlin]
+  constructor
+  · intro h; constructor <;> linarith
+  · rintro ⟨a, b⟩; rw [a, b]; norm_num
+
+/-- value of the feasibility-mode QUBO with the default penalty (= 1) is the penalty itself -/
+theorem feasQubo_eq_penalty (d : MPData) (suff : ℚ) (x : Vec) (hx : IsBin d.n x) :
+    quad d.n (d.quboQ (defaultRho suff true) true) x + d.quboK (defaultRho suff true) = d.penalty x := by
+  rw [C02.getQubo_energy d _ true x hx, default_rho_feas]; simp
+
+/-- **C03**: non-negative everywhere, zero exactly on the feasible set -/
+theorem feasQubo_nonneg_zero_iff (d : MPData) (suff : ℚ) (x : Vec) (hx : IsBin d.n x) :
+    0 ≤ quad d.n (d.quboQ (defaultRho suff true) true) x + d.quboK (defaultRho suff true) ∧
+    (quad d.n (d.quboQ (defaultRho suff true) true) x + d.quboK (defaultRho suff true) = 0
+      ↔ d.feasibleB x = true) := by
+  rw [feasQubo_eq_penalty d suff x hx]
+  exact ⟨penalty_nonneg d x hx, penalty_zero_iff d x hx⟩
+
+/-- hence: the minimum over binary vectors is 0 iff the constrained problem is feasible -/
+theorem feasQubo_min_zero_iff_feasible (d : MPData) (suff : ℚ) :
+    (∃ x, IsBin d.n x ∧ quad d.n (d.quboQ (defaultRho suff true) true) x + d.quboK (defaultRho suff true) = 0)
+      ↔ (∃ x, IsBin d.n x ∧ d.feasibleB x = true) := by
+  constructor
+  · rintro ⟨x, hx, h⟩; exact ⟨x, hx, ((feasQubo_nonneg_zero_iff d suff x hx).2).mp h⟩
+  · rintro ⟨x, hx, h⟩; exact ⟨x, hx, ((feasQubo_nonneg_zero_iff d suff x hx).2).mpr h⟩
+
+/-- the same with an arbitrary positive penalty weight -/
+theorem feasQubo_pos_rho (d : MPData) (rho : ℚ) (hrho : 0 < rho) (x : Vec) (hx : IsBin d.n x) :
+    0 ≤ quad d.n (d.quboQ rho true) x + d.quboK rho ∧
+    (quad d.n (d.quboQ rho true) x + d.quboK rho = 0 ↔ d.feasibleB x = true) := by
+  rw [C02.getQubo_energy d rho true x hx]
+  simp only [if_true, zero_add]
+  refine ⟨mul_nonneg hrho.le (penalty_nonneg d x hx), ?_⟩
+  rw [← penalty_zero_iff d x hx, mul_eq_zero]
+  constructor
+  · rintro (h | h)
+    · exact absurd h hrho.ne'
+    · exact h
+  · exact Or.inr
 end Vrp.C03
